@@ -85,7 +85,7 @@ def main():
                 res["error"] = "demo does not build with change: " + out[-400:]; return res
             res["demo_with_change"] = run_demo("changed")
         ok_demo = (not os.path.exists(demo)) or (all(c == 0 for c in res["demo_without_change"]) and all(c != 0 for c in res["demo_with_change"]))
-        res["confirmed"] = bool(res["compiles"] and res["ctest_rc"] == 0 and (harmless or ok_demo))
+        res["confirmed"] = bool(res["compiles"] and res["tls_compiles"] and res["ctest_rc"] == 0 and (harmless or ok_demo))
         return res
     finally:
         sh("git -C /repo worktree remove --force %s/repo; rm -rf %s" % (base, base))
